@@ -210,7 +210,11 @@ TraceSpec == TInit /\ [][TNext]_tvars
 
 \* state invariants evaluated at every step of every observed execution
 DepthNonNeg == depth >= 0 /\ h >= 0 /\ els >= 0
-DepthIsOpen == running => depth >= Len(open) - 1
+\* (a shape whose text is written as content is dispatched a second time with the text as an
+\* attribute - the same element, entered again at the same depth: not a level of nesting)
+Nest == Len(SelectSeq([i \in 1..Len(open) |-> i],
+                      LAMBDA i : i = 1 \/ open[i].idx # open[i - 1].idx \/ open[i].name # open[i - 1].name))
+DepthIsOpen == running => depth >= Nest - 1
 
 \* remember how far the trace was matched
 Progress == TLCSet(1, l) /\ TLCSet(2, running)
